@@ -18,6 +18,9 @@ def check(ctx):
     # the animator's timelines are merged timelines: the blend must reach every component (C12/R2)
     from rules import c12
     c12.check_loop_method(ctx, ctx.facts, "R8", "start_with", mutable=True)
+    # ... and, in a generated timeline, every animated property (C17/G6)
+    from rules import derive_rules
+    derive_rules.rule_blend_wiring(ctx, "R8")
     ctx.notes.append("not decided: that update at time 0 reproduces the override exactly as a float value "
                      "(ease(0)=0 and lerp at 0 are covered structurally by C02/R1 and C13); equality of values over "
                      "real histories")
